@@ -356,6 +356,45 @@ def _prio(u):
     return 0
 
 
+def _ukey(u):
+    if not isinstance(u, dict):
+        return repr(u)
+    d = {k: u.get(k) for k in ('module', 'options', 'L', 'kind', 'shape', 'ajax', 'n', 'registry', 'ref', 'func', 'qlen', 'repeat', 'window', 'chunk', 'ais')}
+    d['literal'] = u.get('literal') is not None
+    if isinstance(u.get('cfg'), (list, tuple)):
+        d['cfg'] = list(u['cfg'][:3])
+    return json.dumps(d, sort_keys=True, default=str)
+
+
+def plan_thorough(units, quick_units):
+    """thorough tier = everything the quick tier explores, with larger caps, first; then the additional lengths / options /
+    neighbourhoods for as long as the global budget lasts.  Per-unit time caps are scaled so that the first class fits into
+    ~55 % of the CPU budget (NPROC x THOROUGH_S) and never drop below twice the quick cap."""
+    qk = {}
+    for q in quick_units:
+        qk[_ukey(q)] = q
+    first, rest = [], []
+    for u in units:
+        q = qk.get(_ukey(u)) if isinstance(u, dict) else None
+        if q is not None:
+            u['prio'] = _prio(q)
+            u['_quick_timeout'] = q.get('timeout', 30)
+            first.append(u)
+        else:
+            u['prio'] = _prio(u) + 4
+            rest.append(u)
+    cpu = NPROC * THOROUGH_S
+    if first:
+        share = 0.55 * cpu / len(first)
+        for u in first:
+            u['timeout'] = int(max(2 * u.pop('_quick_timeout'), min(u.get('timeout', 60), share)))
+    if rest:
+        share = 0.45 * cpu / len(rest)
+        for u in rest:
+            u['timeout'] = int(max(20, min(u.get('timeout', 60), share)))
+    return units
+
+
 def shuffle_units(units):
     """seeded shuffle within priority classes: whole-module units first, then neighbourhood units, then container shapes,
     so that the global time budget of the quick tier cuts the cheapest-to-lose units"""
